@@ -22,7 +22,7 @@ def _hist_worker(args):
                                     proj=kit.proj, gen=kit.gen,
                                     obs=obs06.observe_directed if kitname == "DH" else obs06.observe)
         for r in recs:
-            if r.get("obs"):
+            if r.get("obs") or r["postanom"]:
                 out.append({"rid": r["rid"], "what": f"{kitname} after {r['op']['name']}", "gamma": r["gamma"],
                             "post": r["post"], "postanom": [a for a in r["postanom"] if not a.startswith("view:")],
                             "viewanom": [a for a in r["postanom"] if a.startswith("view:")], "obs": r["obs"],
